@@ -144,3 +144,27 @@ Fixpoint rel_hrun (L : layout) (img : list Z) (off size : Z) (gs : list gen) (h 
   end.
 Definition rel_hist (L : layout) (img : list Z) (off size : Z) (h : list hop) : list (ans entry) :=
   rel_hrun L img off size [] h.
+
+(* ---------- the ELFFile object under repeated get_dwarf_info() calls ---------- *)
+(* What an ELFFile keeps between calls, as far as the debug-section path reads it: the file
+   stream.  _read_dwarf_section copies the section into a NEW BytesIO (`section_stream =
+   BytesIO(); section_stream.write(section.data())`) and RelocationHandler writes into that
+   copy only; nothing is assigned on self.  So a call returns the bytes of its own descriptor
+   stream and leaves the object as it found it. *)
+Record elf_obj := mkElfObj { eo_stream : list Z }.     (* contents of self.stream *)
+
+(* one get_dwarf_info(relocate_dwarf_sections=flag), observed at debug_<x>_sec.stream of the
+   returned DWARFInfo for the section [section] *)
+Definition dwarf_call (le is64 : bool) (em : Z) (secs : list sec) (section : sec)
+           (st : elf_obj) (flag : bool) : elf_obj * res (list Z) :=
+  (st, read_dwarf_section le is64 em (eo_stream st) secs section flag).
+
+Fixpoint dwarf_calls (le is64 : bool) (em : Z) (secs : list sec) (section : sec)
+         (st : elf_obj) (flags : list bool) : list (res (list Z)) * elf_obj :=
+  match flags with
+  | [] => ([], st)
+  | f :: r =>
+      let (st1, a) := dwarf_call le is64 em secs section st f in
+      let (rest, st2) := dwarf_calls le is64 em secs section st1 r in
+      (a :: rest, st2)
+  end.
